@@ -362,6 +362,7 @@ class Sim:
         self.started = False
         self._next_wake = float("inf")
         self.lazy_kinds: set[str] = set()  # thread kinds that run "arbitrarily late"
+        self.frozen = False
 
     # ------------------------------------------------------------------ actors
     def actor(self, name: str) -> Actor:
@@ -392,7 +393,10 @@ class Sim:
 
     # ------------------------------------------------------------------ clock
     def time(self) -> float:
-        """Every read is strictly later than the previous one."""
+        """Every read is strictly later than the previous one (unless frozen:
+        the clock-only checks probe exact instants)."""
+        if self.frozen:
+            return self.now
         self.now += 1e-6
         return self.now
 
@@ -403,8 +407,7 @@ class Sim:
         if self.threaded and self.current_thread() is not None and not self.in_seam:
             self.now += self.delta_spin
             self.yield_point("clock", None)
-        self.now += 1e-6
-        return self.now
+        return self.time()
 
     def spin_point(self) -> None:
         """A busy-wait iteration: yield and let `delta_spin` pass."""
@@ -457,8 +460,10 @@ class Sim:
 
     # ------------------------------------------------------------------ faults
     def buggify_thread_start(self, th: SimThread) -> bool:
+        if th.kind != "t":
+            return False
         self.thread_start_counter += 1
-        if self.thread_start_counter in self.thread_start_failures and th.kind == "t":
+        if self.thread_start_counter in self.thread_start_failures:
             self.bump("fault.thread_start_failure")
             self.log_event("fault-thread-start", th.name)
             return True
@@ -514,7 +519,8 @@ class Sim:
     def yield_point(self, kind: str, detail: Any = None) -> None:
         if not self.threaded:
             self.steps += 1
-            self.now += self.delta
+            if not self.frozen:
+                self.now += self.delta
             return
         th = self.current_thread()
         if th is None:
@@ -522,7 +528,8 @@ class Sim:
                 raise HarnessError(f"yield point {kind} reached by an unsimulated thread")
             # set-up / tear-down phase on the controller thread
             self.steps += 1
-            self.now += self.delta
+            if not self.frozen:
+                self.now += self.delta
             return
         if self.aborting:
             raise SimAbort()
